@@ -8,6 +8,8 @@ import (
 	"strings"
 	"time"
 
+	"github.com/go-openapi/validate"
+
 	"verif/harness/checks"
 	"verif/harness/hx"
 )
@@ -39,6 +41,13 @@ func main() {
 			}
 		default:
 			c.Args = append(c.Args, rest[i])
+		}
+	}
+	if d := validate.VerifDegraded(); len(d) > 0 {
+		// the internals of this tree differ from the pinned one: some observers are stand-ins
+		hx.ExtraAssumptions = append(hx.ExtraAssumptions, "observers not available on this tree (stand-ins used, dependent oracles skipped): "+strings.Join(d, ", "))
+		if c.Worker < 0 {
+			fmt.Fprintln(os.Stderr, "NOTE observers not available on this tree:", strings.Join(d, ", "))
 		}
 	}
 	f, ok := checks.Registry[c.ID]
